@@ -43,3 +43,15 @@ reg("C16", "runtime monitor: reported trial count and lengths of all returned li
     "R's trial-count arithmetic (weights, exclusions, preambles, MinimumTrials, modes/alignments, Repeat, Nest) is compared with trials_per_sample() and with every list of every sequence returned by four strategies.", _R)
 reg("C17", "runtime monitor: the real mismatch checker judged against the reference model on valid sequences and in-domain perturbations",
     "For R-decidable designs, enumerated valid sequences and systematically perturbed ones (classified by R) are given to sample_mismatch_experiment; {} iff valid, and no exception.", _R)
+reg("C20", "runtime monitor: outputs of the real conversion functions compared cell by cell with an independent model, CSV files read back",
+    "Synthesized experiments (including designs with hidden desugared factors) and arbitrary experiments with hostile names are converted by experiments_to_tuples / _dicts / save_experiments_csv and compared with e[f][t] for user-declared factors in design order; no foreign key or column may appear.",
+    "csv module as reader; bounded experiment sizes")
+reg("C21", "runtime monitor: printed tabulation parsed and compared with an independent counter",
+    "tabulate_experiments is called with generated experiments, factor selections (whole crossing, subsets, permutations) and trial selections (None, subsets, repeated indices); every printed row is parsed and compared with counted frequencies and percentages.",
+    "names without blanks or '|' so that the printed table parses unambiguously")
+reg("C24", "runtime monitor: differential comparison of both sides of each documented combinator law on real blocks",
+    "For each law both sides are built from fresh objects; constructor outcome, trials_per_sample and the exhausted IterateSATGen and RandomGen sets must agree.",
+    "sets compared by level names; <= 400 sequences; no reference model")
+reg("C27", "runtime monitor: recording taps at the solver boundary (file text, solver-side clauses/models, decode input, blocking-clause updates) checked by an independent strict DIMACS parser",
+    "Real IterateSATGen / CMSGen / UniGen runs on generated designs are observed through proxies on pycryptosat, pycmsgen, pyunigen and on the file-handling functions; plus direct exercises of the renderers/parsers on random CNF objects.",
+    "proxies forward unchanged; the DIMACS terminator kept by cryptominisat_solve is recorded, not charged")
